@@ -117,10 +117,24 @@ ensures
         && r.kind->Literal_suffix_start == utf8_len(old(self).rest().take(1 + num_spec(old(self).rest()[0], old(self).rest().skip(1)).1)),   //@C15,C11:numeric-literal-by-the-syntax
 ''')),
         scanner('line_comment', " old(self).prevc() == '/', peek(*old(self)) == '/',", ' k == TokenKind::LineComment,', ret='k'),
-        scanner('block_comment', " old(self).prevc() == '/', peek(*old(self)) == '*',", ' k is BlockComment,', ret='k', loops={1: '''invariant_except_break depth >= 1,
+        scanner('block_comment', " old(self).prevc() == '/', peek(*old(self)) == '*',", ''' k is BlockComment,
+    // the flag is exact: terminated iff the (nested) comment is closed, and then the token ends right after its `*/`;
+    // an unterminated comment runs to the end of the input
+    k->BlockComment_terminated == (bc_end(old(self).rest().skip(1), 1) is Some),                        //@C11,C15:terminated-flag-exact
+    k->BlockComment_terminated ==> eaten(*old(self), *final(self)) == 1 + bc_end(old(self).rest().skip(1), 1)->Some_0,   //@C15,C14:comment-extent
+    !k->BlockComment_terminated ==> final(self).rest().len() == 0,                                      //@C15,C14:comment-extent
+''', ret='k', loops={1: '''invariant_except_break depth >= 1,
+    bc_end(old(self).rest().skip(1), 1) == lift(bc_end(self.rest(), depth as int), eaten(*old(self), *self) - 1),
 invariant
-    advanced(*old(self), *self), fits(*old(self)), depth <= 1 + eaten(*old(self), *self),
-decreases self.rest().len(),'''}),
+    advanced(*old(self), *self), fits(*old(self)), depth <= 1 + eaten(*old(self), *self), eaten(*old(self), *self) >= 1,
+ensures advanced(*old(self), *self),
+    depth == 0 ==> bc_end(old(self).rest().skip(1), 1) == Some(eaten(*old(self), *self) - 1),
+    depth != 0 ==> self.rest().len() == 0 && bc_end(old(self).rest().skip(1), 1) is None,
+decreases self.rest().len(),'''},
+                loop_ghost='''broadcast use lex_lemmas;
+let ghost k0 = eaten(*old(self), *self); let ghost s0 = old(self).rest();
+proof { assert(self.rest() == s0.skip(k0)); if self.rest().len() > 1 { assert(self.rest().skip(1) =~= s0.skip(k0 + 1)); assert(self.rest().skip(2) =~= s0.skip(k0 + 2)); } }''',
+                ghost=[('{', 'after', 'broadcast use lex_lemmas;'), ('let mut depth = 1usize;', 'after', 'proof { lemma_advanced_rest(*old(self), *self); assert(self.rest() == old(self).rest().skip(1)); }')]),
         scanner('whitespace', ' is_ws(old(self).prevc()),', ' k == TokenKind::Whitespace,', ret='k'),
         scanner('have_dim'),
         scanner('have_pragma', '', " !r ==> (final(self).prevc() == old(self).prevc() || ascii_letter(final(self).prevc())),", ret='r'),
@@ -132,12 +146,36 @@ decreases self.rest().len(),'''}),
         scanner('fake_ident_or_unknown_prefix', '', ' k == TokenKind::InvalidIdent,', ret='k'),
         scanner('float_with_no_leading_digit', *SB['float_with_no_leading_digit'][:2], **SB['float_with_no_leading_digit'][2]),
         scanner('number', *SB['number'][:2], **SB['number'][2]),
-        scanner('double_quoted_string', " old(self).prevc() == '\"',", loops={1: '''invariant
-    advanced(*old(self), *self), fits(*old(self)), 0 <= count_newlines <= eaten(*old(self), *self),
-decreases self.rest().len(),'''}),
-        scanner('single_quoted_string', " old(self).prevc() == '\\'',", loops={1: '''invariant
-    advanced(*old(self), *self), fits(*old(self)), 0 <= count_newlines <= eaten(*old(self), *self),
-decreases self.rest().len(),'''}),
+        scanner('double_quoted_string', " old(self).prevc() == '\"',", '''
+    // the flag is exact: terminated iff a closing quote (not escaped) exists, and then the token ends right after it;
+    // an unterminated string runs to the end of the input
+    r.0 == (str_end(old(self).rest(), '"') is Some),                                                 //@C11,C15:terminated-flag-exact
+    r.0 ==> eaten(*old(self), *final(self)) == str_end(old(self).rest(), '"')->Some_0,                //@C15,C14:string-extent
+    !r.0 ==> final(self).rest().len() == 0,                                                            //@C15,C14:string-extent
+''', ret='r', loops={1: '''invariant
+    advanced(*old(self), *self), fits(*old(self)), 0 <= count_newlines <= eaten(*old(self), *self), !terminated,
+    // what remains decides the outcome: the string ends where the rest of it ends
+    str_end(old(self).rest(), '"') == lift(str_end(self.rest(), '"'), eaten(*old(self), *self)),
+ensures advanced(*old(self), *self), !terminated, self.rest().len() == 0, str_end(old(self).rest(), '"') is None,
+decreases self.rest().len(),'''},
+                loop_ghost='''broadcast use lex_lemmas;
+let ghost k0 = eaten(*old(self), *self); let ghost s0 = old(self).rest(); let ghost c_in = *self;
+proof { assert(self.rest() == s0.skip(k0)); if self.rest().len() > 1 { assert(self.rest().skip(1) =~= s0.skip(k0 + 1)); assert(self.rest().skip(2) =~= s0.skip(k0 + 2)); } }''', ghost=[('{', 'after', 'broadcast use lex_lemmas;'), ("let mut prev_char = '\\0';", 'after', 'proof { assert(old(self).rest().skip(0) =~= old(self).rest()); }'), ('                    return (terminated, only_ones_and_zeros, consecutive_underscores);', 'before', 'proof { lemma_advanced_rest(*old(self), *self); }')]),
+        scanner('single_quoted_string', " old(self).prevc() == '\\'',", '''
+    // the flag is exact: terminated iff a closing quote (not escaped) exists, and then the token ends right after it;
+    // an unterminated string runs to the end of the input
+    r.0 == (str_end(old(self).rest(), '\\'') is Some),                                                 //@C11,C15:terminated-flag-exact
+    r.0 ==> eaten(*old(self), *final(self)) == str_end(old(self).rest(), '\\'')->Some_0,                //@C15,C14:string-extent
+    !r.0 ==> final(self).rest().len() == 0,                                                            //@C15,C14:string-extent
+''', ret='r', loops={1: '''invariant
+    advanced(*old(self), *self), fits(*old(self)), 0 <= count_newlines <= eaten(*old(self), *self), !terminated,
+    // what remains decides the outcome: the string ends where the rest of it ends
+    str_end(old(self).rest(), '\\'') == lift(str_end(self.rest(), '\\''), eaten(*old(self), *self)),
+ensures advanced(*old(self), *self), !terminated, self.rest().len() == 0, str_end(old(self).rest(), '\\'') is None,
+decreases self.rest().len(),'''},
+                loop_ghost='''broadcast use lex_lemmas;
+let ghost k0 = eaten(*old(self), *self); let ghost s0 = old(self).rest(); let ghost c_in = *self;
+proof { assert(self.rest() == s0.skip(k0)); if self.rest().len() > 1 { assert(self.rest().skip(1) =~= s0.skip(k0 + 1)); assert(self.rest().skip(2) =~= s0.skip(k0 + 2)); } }''', ghost=[('{', 'after', 'broadcast use lex_lemmas;'), ("let mut prev_char = '\\0';", 'after', 'proof { assert(old(self).rest().skip(0) =~= old(self).rest()); }'), ('                    return (terminated, only_ones_and_zeros, consecutive_underscores);', 'before', 'proof { lemma_advanced_rest(*old(self), *self); }')]),
         scanner('eat_decimal_digits', *SB['eat_decimal_digits'][:2], **SB['eat_decimal_digits'][2]),
         scanner('eat_hexadecimal_digits', *SB['eat_hexadecimal_digits'][:2], **SB['eat_hexadecimal_digits'][2]),
         scanner('eat_float_exponent', *SB['eat_float_exponent'][:2], **SB['eat_float_exponent'][2]),
